@@ -57,6 +57,7 @@ type Exec struct {
 	specFuns   map[string]specFun
 	nquant, nsort int
 	lastPerm   string
+	pureFuns   map[string]*pureFun
 }
 
 func NewExec(P *Program, cfg *Config) *Exec {
@@ -312,8 +313,33 @@ func heapArrIn(x *Exec, h map[string]Term, name, sort string) Term {
 		suffix = "!" + e.S
 	}
 	cname := mangle(name) + suffix
-	x.D.DeclareFun(cname, nil, sort)
+	if !x.D.HasFun(cname) {
+		x.D.DeclareFun(cname, nil, sort)
+		if suffix == "!init" {
+			x.initHeapFreshness(cname, sort)
+		}
+	}
 	return Term{cname, sort}
+}
+
+// initHeapFreshness: every reference stored anywhere in the entry heap is "old" (rid <= 0), so it
+// can never alias an object allocated during the execution (rid > 0).
+func (x *Exec) initHeapFreshness(cname, sort string) {
+	k, v := splitArraySort(sort)
+	if k != SRef {
+		return
+	}
+	old := func(t string) string { return "(<= (rid " + t + ") 0)" }
+	switch {
+	case v == SRef:
+		x.D.Axiom(fmt.Sprintf("(forall ((r Ref)) (! %s :pattern ((select %s r))))", old("(select "+cname+" r)"), cname))
+	case v == SSlice:
+		x.D.Axiom(fmt.Sprintf("(forall ((r Ref)) (! %s :pattern ((select %s r))))", old("(s.base (select "+cname+" r))"), cname))
+	case v == ArraySort(SInt, SRef):
+		x.D.Axiom(fmt.Sprintf("(forall ((r Ref) (i Int)) (! %s :pattern ((select (select %s r) i))))", old("(select (select "+cname+" r) i)"), cname))
+	case v == ArraySort(SInt, SSlice):
+		x.D.Axiom(fmt.Sprintf("(forall ((r Ref) (i Int)) (! %s :pattern ((select (select %s r) i))))", old("(s.base (select (select "+cname+" r) i))"), cname))
+	}
 }
 
 func (x *Exec) setHeap(st *State, name string, t Term) {
@@ -775,6 +801,7 @@ func (x *Exec) loopClauses(st *State, fr *Frame, ld *loopDesc) (invs, decs []Cla
 func (x *Exec) havocLoop(st *State, fr *Frame, ld *loopDesc) {
 	writes := map[string]bool{}
 	callsUnknown := false
+	frameRegions := map[string]bool{} // heap arrays named by the modifies clauses of callees under contract
 	for bi := range ld.body {
 		for _, in := range fr.fn.Blocks[bi].Instrs {
 			switch in := in.(type) {
@@ -782,7 +809,18 @@ func (x *Exec) havocLoop(st *State, fr *Frame, ld *loopDesc) {
 				writes["store:"+typeKey(in.Addr.Type())] = true
 			case *ssa.MapUpdate:
 				writes["map"] = true
-			case *ssa.Call, *ssa.Defer, *ssa.Go:
+			case *ssa.Call:
+				if x.callIsHeapNeutral(in.Common()) {
+					break
+				}
+				if regs, ok := x.calleeFrameArrays(in.Common()); ok {
+					for _, r := range regs {
+						frameRegions[r] = true
+					}
+					break
+				}
+				callsUnknown = true
+			case *ssa.Defer, *ssa.Go:
 				callsUnknown = true
 			case *ssa.Send:
 				callsUnknown = true
@@ -808,6 +846,9 @@ func (x *Exec) havocLoop(st *State, fr *Frame, ld *loopDesc) {
 				touched["MD.*"] = true
 			}
 		}
+	}
+	for r := range frameRegions {
+		touched[r] = true
 	}
 	if callsUnknown {
 		// calls inside the loop: be conservative — all heap arrays and all worlds
@@ -1182,3 +1223,100 @@ func (x *Exec) bindResults(sc *scope, fn *ssa.Function, res []Val) {
 }
 
 func isErrorType(t types.Type) bool { return typeKey(t) == "error" }
+
+// callIsHeapNeutral: a call inside a loop body that provably (builtin, value-level native model) or
+// by declaration (pure / reads_only contract, `pure` flag of the function under verification)
+// neither writes the heap reachable from the caller nor a world. Such calls do not force the loop
+// havoc to forget everything.
+func (x *Exec) callIsHeapNeutral(cc *ssa.CallCommon) bool {
+	if _, ok := cc.Value.(*ssa.Builtin); ok {
+		return true
+	}
+	name := ""
+	if cc.IsInvoke() {
+		name = "(" + shortPkgType(cc.Value.Type()) + ")." + cc.Method.Name()
+	} else if f := cc.StaticCallee(); f != nil {
+		name = CanonName(f)
+	} else {
+		return false
+	}
+	if _, ok := x.purePattern(name); ok {
+		return true
+	}
+	if c, ok := x.P.Contracts[name]; ok {
+		if _, p := c.Flags["pure"]; p {
+			return true
+		}
+		if _, p := c.Flags["reads_only"]; p {
+			return true
+		}
+		return false
+	}
+	if _, ok := natives[name]; ok {
+		// native models are value-level (no heap or world writes) except the ones listed here
+		return !strings.HasSuffix(name, ".CacheContext")
+	}
+	return false
+}
+
+// calleeFrameArrays: for a static callee under contract whose frame is given entirely by
+// `modifies *param` / `modifies elems(param)` regions, the heap arrays those regions live in.
+func (x *Exec) calleeFrameArrays(cc *ssa.CallCommon) ([]string, bool) {
+	f := cc.StaticCallee()
+	if f == nil || cc.IsInvoke() {
+		return nil, false
+	}
+	c, ok := x.P.Contracts[CanonName(f)]
+	if !ok {
+		return nil, false
+	}
+	m, ok := c.Flags["modifies"]
+	if !ok {
+		return nil, false
+	}
+	var out []string
+	for _, region := range strings.Fields(strings.ReplaceAll(m, ",", " ")) {
+		var pname string
+		elems := false
+		switch {
+		case strings.HasPrefix(region, "*"):
+			pname = region[1:]
+		case strings.HasPrefix(region, "elems(") && strings.HasSuffix(region, ")"):
+			pname, elems = region[6:len(region)-1], true
+		default:
+			return nil, false // world regions etc.: not a pure heap frame
+		}
+		var pt types.Type
+		for _, p := range f.Params {
+			if p.Name() == pname {
+				pt = p.Type()
+			}
+		}
+		if pt == nil {
+			return nil, false
+		}
+		if elems {
+			sl, ok := pt.Underlying().(*types.Slice)
+			if !ok {
+				return nil, false
+			}
+			n, _ := elemArrName(x.S.SortOf(sl.Elem()))
+			out = append(out, n)
+			continue
+		}
+		ptr, ok := pt.Underlying().(*types.Pointer)
+		if !ok {
+			return nil, false
+		}
+		if si := x.S.StructInfo(ptr.Elem()); si != nil {
+			for i := range si.fields {
+				n, _ := x.fieldArrName(si, i)
+				out = append(out, n)
+			}
+		} else {
+			n, _ := cellArrName(x.S.SortOf(ptr.Elem()))
+			out = append(out, n)
+		}
+	}
+	return out, true
+}
